@@ -1,5 +1,128 @@
-import FxVerif.Model.C11
+import FxVerif.Proofs.C11
+/-!
+# C11 — transferring delegation shares conserves shares, stake and reward entitlements
+
+All theorems are about the model `FxVerif.Model.C11` instantiated with the facts `FxVerif.Gen.C11.cfg` that
+`go/extract/c11.go` reads off the current source of `handlerTransferShares` / `decrementAllowance` / the two `Run`
+methods on every run.  `cfg_good` is the obligation that ties them to the code: if the self-transfer guard, the
+redelegation refusal, a withdrawal, a reference-count edit, the starting-info period or the allowance arithmetic is
+edited away, `cfg` changes and `cfg_good` (and with it every theorem below) stops checking.
+-/
 namespace FxVerif.Props.C11
-open FxVerif.Model.C11
-theorem placeholder : ONE = 1000000000000000000 := rfl
+open FxVerif.Model.C11 FxVerif.Proofs.C11
+
+abbrev cfg := FxVerif.Gen.C11.cfg
+
+/-- the facts of the Go source that the property needs (see `Model.C11.good`) hold of the code as it is now -/
+theorem cfg_good : good cfg = true := by decide
+
+/-- **transfer_moves_exactly.**  A successful transfer of `X` (= shares × 10^18) between different accounts takes
+exactly `X` from the sender (whose delegation had at least `X`; it disappears iff it had exactly `X`), adds exactly `X`
+to the recipient (with or without a previous delegation), leaves every other delegation, the validator's tokens
+and the validator's total shares unchanged, and is refused while the sender has an incoming redelegation. -/
+theorem transfer_moves_exactly {v v' : VS} {h f t X rf rt : Nat} {recv : Bool} (hne : f ≠ t)
+    (ht : VS.transfer cfg v h f t X recv = .ok (v', rf, rt)) :
+    ∃ fsh, v.del f = some fsh ∧ X ≤ fsh ∧ recv = false ∧
+      v'.del f = (if fsh - X = 0 then none else some (fsh - X)) ∧
+      v'.del t = some ((v.del t).getD 0 + X) ∧
+      (∀ d, d ≠ f → d ≠ t → v'.del d = v.del d) ∧ v'.tokens = v.tokens ∧ v'.shares = v.shares := by
+  obtain ⟨fsh, hf, hr, hle, ht', hs', hd⟩ := transfer_del cfg_good hne ht
+  refine ⟨fsh, hf, hle, hr, ?_, ?_, ?_, ht', hs'⟩
+  · rw [hd]; simp [setAt, hne]
+  · rw [hd]; simp [setAt]
+  · intro d h1 h2; rw [hd]; simp [setAt, h1, h2]
+
+/-- **self_transfer_noop.**  A transfer to oneself (any amount the sender holds) returns the validator record —
+delegations, starting infos, reference counts, periods, rewards — unchanged and pays nothing. -/
+theorem self_transfer_noop {v v' : VS} {h d X rf rt : Nat} {recv : Bool}
+    (ht : VS.transfer cfg v h d d X recv = .ok (v', rf, rt)) : v' = v ∧ rf = 0 ∧ rt = 0 :=
+  transfer_self cfg_good ht
+
+/-- **rewards_paid_up_to_now.**  A transfer pays the sender exactly what the SDK's own `WithdrawDelegationRewards`
+pays at that moment on the state before the transfer, then pays an existing recipient exactly what
+`WithdrawDelegationRewards` pays on the resulting state (a new recipient is paid nothing and the validator period is
+ended for it); the delegation rewrite that follows does not touch rewards (`outstanding`, `paid`, `dust`, `cur`,
+`allocated` are those left by the two withdrawals). -/
+theorem rewards_paid_up_to_now {v v' : VS} {h f t X rf rt : Nat} {recv : Bool} (hne : f ≠ t)
+    (ht : VS.transfer cfg v h f t X recv = .ok (v', rf, rt)) :
+    ∃ v1 v2, v.withdrawMsg h f = .ok (v1, rf) ∧
+      ((v1.del t = none ∧ rt = 0 ∧ ∃ e, v1.incPeriod v.tokens = .ok (v2, e)) ∨
+       (v1.del t ≠ none ∧ v1.withdrawMsg h t = .ok (v2, rt))) ∧
+      v'.outstanding = v2.outstanding ∧ v'.paid = v2.paid ∧ v'.dust = v2.dust ∧ v'.cur = v2.cur ∧
+      v'.allocated = v2.allocated := by
+  have hg := cfg_good
+  revert ht hg
+  generalize cfg = c
+  intro ht hg
+  obtain ⟨fsh, v1, v2, v3, _, _, _, h1, h2, h3, h4⟩ := transfer_ok hg hne ht
+  obtain ⟨-, -, -, -, g5, g6, g7, g8, g9, g10, -⟩ := good_fields hg
+  refine ⟨v1, v2, h1, ?_, ?_⟩
+  · unfold VS.xferLookup at h2
+    cases hd : v1.del t with
+    | none =>
+      rw [hd] at h2
+      simp only [g7, if_true] at h2
+      cases hq : v1.incPeriod v.tokens with
+      | error e => rw [hq] at h2; cases h2
+      | ok q =>
+        obtain ⟨q1, q2⟩ := q
+        rw [hq] at h2
+        cases h2
+        exact Or.inl ⟨rfl, rfl, q2, rfl⟩
+    | some tsh =>
+      rw [hd] at h2
+      simp only [g6, if_true] at h2
+      exact Or.inr ⟨by simp, h2⟩
+  · -- the two rewrite steps leave the reward fields alone
+    have e3 : v3.outstanding = v2.outstanding ∧ v3.paid = v2.paid ∧ v3.dust = v2.dust ∧ v3.cur = v2.cur ∧
+        v3.allocated = v2.allocated := by
+      unfold VS.xferFrom at h3
+      simp only [g8, g9, if_true] at h3
+      split at h3
+      · cases h3
+      · split at h3
+        · split at h3
+          · cases h3
+          · rename_i b hb
+            obtain ⟨_, rfl⟩ := decRef_ok hb
+            cases h3
+            exact ⟨rfl, rfl, rfl, rfl, rfl⟩
+        · cases h3; exact ⟨rfl, rfl, rfl, rfl, rfl⟩
+    have e4 : v'.outstanding = v3.outstanding ∧ v'.paid = v3.paid ∧ v'.dust = v3.dust ∧ v'.cur = v3.cur ∧
+        v'.allocated = v3.allocated := by
+      unfold VS.xferTo at h4
+      simp only [g10, g5, if_true] at h4
+      split at h4
+      · split at h4
+        · cases h4
+        · rename_i v5 h5
+          obtain ⟨_, rfl⟩ := incRef_ok h5
+          cases h4; exact ⟨rfl, rfl, rfl, rfl, rfl⟩
+      · cases h4; exact ⟨rfl, rfl, rfl, rfl, rfl⟩
+    obtain ⟨a1, a2, a3, a4, a5⟩ := e3
+    obtain ⟨b1, b2, b3, b4, b5⟩ := e4
+    exact ⟨b1.trans a1, b2.trans a2, b3.trans a3, b4.trans a4, b5.trans a5⟩
+
+/-- **rewards conservation (one withdrawal).**  `withdrawDelegationRewards` takes out of `outstanding` exactly what
+it pays as whole coins plus the sub-unit remainder that goes to the community pool: nothing is lost, nothing is
+paid twice (the only inexactness is the explicit truncation `dust`). -/
+theorem withdraw_conserves {v v' : VS} {h d c : Nat} (hw : v.withdrawRewards h d = .ok (v', c)) :
+    ∃ v1, v.incPeriod v.tokens = .ok (v1, v.period) ∧
+      v'.outstanding + v'.paid * ONE + v'.dust = v1.outstanding + v1.paid * ONE + v1.dust ∧
+      v'.paid = v1.paid + c ∧ v'.allocated = v1.allocated := by
+  obtain ⟨sh, si, v1, raw, v3, _, _, h1, _, h3, rfl, rfl⟩ := withdrawRewards_ok hw
+  obtain ⟨_, rfl⟩ := decRef_ok h3
+  refine ⟨v1, h1, ?_, rfl, rfl⟩
+  simp only [payout]
+  have hr : min raw v1.outstanding ≤ v1.outstanding := Nat.min_le_right _ _
+  generalize min raw v1.outstanding = r at hr ⊢
+  generalize ONE = one
+  have hdm := Nat.div_add_mod r one
+  rw [Nat.mul_comm] at hdm
+  rw [Nat.add_mul]
+  generalize r / one * one = q at hdm ⊢
+  generalize r % one = m at hdm ⊢
+  generalize v1.paid * one = pp
+  omega
+
 end FxVerif.Props.C11
